@@ -84,7 +84,7 @@ def _one(args):
         f.write(mc)
     cfg = "CONSTANTS\n Fixed = TRUE\n Configs <- MCConfigs\n MaxT = %d\n MaxSteps = 400\nINIT Init\nNEXT Next\n" % maxT
     cfg += "".join("INVARIANT %s\n" % i for i in F_INVS) + "INVARIANT ReportOutcome\nCHECK_DEADLOCK FALSE\n"
-    r = tlc.run_tlc("MC_%s" % name, cfg, workers=8, timeout=1500, workdir=wd)
+    r = tlc.run_tlc("MC_%s" % name, cfg, workers=8, timeout=900, workdir=wd)
     out = r.as_dict()
     out["name"] = name
     out["configs"] = len(cfgs)
@@ -112,6 +112,24 @@ def model_configs(tier):
         import random
         rng = random.Random("factory-model")
         C += [c for c in (factory_cfg.random_config(rng, i) for i in range(400)) if supported(c)]
+    # zero-time bursts through combiner/splitter lines (every delay 0) have a factorial number of same-instant
+    # interleavings: they are run on the real classes and judged by leg C, but kept out of the exhaustive model runs
+    def burst(c):
+        if not any(n["type"] in ("combiner", "splitter") for n in c["nodes"]):
+            return False
+        srcs = [n for n in c["nodes"] if n["type"] == "source"]
+        return sum(1 for n in srcs if sum(list(n["iat"])[:5]) == 0) >= 2
+    C = [c for c in C if not burst(c)]
+    if tier == "quick":
+        # the quick tier keeps a sample of the families whose graphs are large; the thorough tier keeps all
+        keep, seen = [], {}
+        for c in C:
+            fam = c["family"]
+            seen[fam] = seen.get(fam, 0) + 1
+            if fam in ("combiner-splitter", "fan-in-out", "S(pallet)-B-Sp-B-K", "fan-out/simultaneous-workers") and seen[fam] > 6:
+                continue
+            keep.append(c)
+        C = keep
     # keep the input finite and small: at most 5 items per source, horizon 60 ticks
     out = []
     for c in C:
